@@ -407,7 +407,7 @@ def run_fuzz(shard, seed, stats, runs):
 
 CHECKS = {'check_cell': check_cell, 'check_equiv': check_equiv, 'check_fuzz_obj': check_fuzz_obj}
 FUZZ_RUNS = 60000
-_B = {'quick': (150, 40), 'thorough': (2000, 300)}
+_B = {'quick': (150, 40), 'thorough': (4000, 300)}
 
 
 def shards(tier):
